@@ -83,6 +83,15 @@ func cswap(swap uint, x2, x3 *big.Int) (*big.Int, *big.Int) {
 // Ladder is the body of the RFC's X25519(k, u) for an already decoded
 // integer k (bits = 255) and field element u.
 func Ladder(k, u *big.Int) *big.Int {
+	x2, z2 := LadderProjective(k, u)
+	// x_2 * z_2^(p-2)
+	return mul(x2, new(big.Int).Exp(z2, new(big.Int).Sub(P, two), P))
+}
+
+// LadderProjective is the ladder of the RFC without the final division: it
+// returns (x_2, z_2), so that the point at infinity (z_2 = 0) can be told
+// from the 2-torsion point u = 0 (x_2 = 0), which Ladder both maps to 0.
+func LadderProjective(k, u *big.Int) (*big.Int, *big.Int) {
 	const bits = 255
 	x1 := mod(u)
 	x2 := big.NewInt(1)
@@ -117,8 +126,49 @@ func Ladder(k, u *big.Int) *big.Int {
 	z2, z3 = cswap(swap, z2, z3)
 	_ = x3
 	_ = z3
-	// x_2 * z_2^(p-2)
-	return mul(x2, new(big.Int).Exp(z2, new(big.Int).Sub(P, two), P))
+	return x2, z2
+}
+
+var (
+	// L is the prime order of the base-point subgroup; the curve has 8*L points.
+	L, _ = new(big.Int).SetString("7237005577332262213973186563042994240857116359379907606001950938285454250989", 10)
+	// TwistL is the prime L' with #twist = 4*L'; it follows from #curve + #twist = 2p + 2.
+	TwistL = func() *big.Int {
+		n := new(big.Int).Add(new(big.Int).Lsh(P, 1), two) // 2p + 2
+		n.Sub(n, new(big.Int).Lsh(L, 3))                   // - 8L
+		return n.Rsh(n, 2)
+	}()
+)
+
+// PrimeOrderSubgroup reports whether the (reduced, non-zero) u is the
+// u-coordinate of a point of the prime-order subgroup of the curve (order L)
+// or of its twist (order L'), and returns that order: [q]P is the point at
+// infinity, i.e. the projective ladder ends with z_2 = 0.
+func PrimeOrderSubgroup(u *big.Int) (bool, *big.Int) {
+	u = mod(u)
+	if u.Sign() == 0 {
+		return false, nil
+	}
+	q := TwistL
+	if OnCurve(u) {
+		q = L
+	}
+	x2, z2 := LadderProjective(q, u)
+	return z2.Sign() == 0 && x2.Sign() != 0, q
+}
+
+// Preimage returns the u-coordinate U with X25519(k, U) = target for a
+// target in a prime-order subgroup of order q: U = [s^-1 mod q] T, where s
+// is the clamped scalar (invertible mod q because 0 < s < 2^255 is not a
+// multiple of the prime q > 2^252 unless s = q..7q, which clamping's
+// multiple-of-8 rule excludes; nil is returned if it is not invertible).
+func Preimage(k []byte, target, q *big.Int) []byte {
+	s := new(big.Int).Mod(DecodeScalar25519(k), q)
+	inv := new(big.Int).ModInverse(s, q)
+	if inv == nil {
+		return nil
+	}
+	return EncodeUCoordinate(Ladder(inv, target))
 }
 
 // X25519 is the RFC 7748 function on two 32-byte strings.
